@@ -117,3 +117,78 @@ for _ao in (False, True):
         native=False,
         budget=5000,
     )
+
+
+# ====================================================================================================== main_driver
+from pyvc.api import Raises  # noqa: E402
+
+DRV_TRACE = {
+    "pdb2pqr.main:print_splash_screen": None,
+    "pdb2pqr.main:transform_arguments": Ref("args"),
+    "pdb2pqr.main:check_files": Raises(None, "FileNotFoundError", "RuntimeError"),
+    "pdb2pqr.main:check_options": Raises(None, "RuntimeError"),
+    "pdb2pqr.io:get_definitions": Obj("Definition"),
+    "pdb2pqr.io:get_molecule": Raises(TupleOf(Items(Obj("Rec")), Bool), "RuntimeError", "ValueError"),
+    "pdb2pqr.main:drop_water": Items(Obj("Rec")),
+    "pdb2pqr.main:setup_molecule": Raises(TupleOf(Obj("pdb2pqr.biomolecule:Biomolecule", atoms=Items()), Obj("Definition"),
+                                                  Const(None)), "ValueError"),
+    "pdb2pqr.biomolecule:Biomolecule.set_termini": Raises(None, "IndexError"),
+    "pdb2pqr.biomolecule:Biomolecule.update_bonds": None,
+    "pdb2pqr.main:non_trivial": Raises(DictOf(("lines", Items(Str)), ("header", Str), ("missed_residues", Items()),
+                                              ("pka_df", Const(None))), "ValueError"),
+    "pdb2pqr.io:print_biomolecule_atoms": Items(Str),
+    "pdb2pqr.main:print_pqr": None,
+    "pdb2pqr.main:print_pdb": None,
+    "pdb2pqr.io:dump_apbs": None,
+}
+
+OUTPUT_WRITERS = ["print_pqr", "print_pdb", "dump_apbs"]
+
+contract(
+    "pdb2pqr.main:main_driver", ["C12", "C04", "C09", "C17", "C07"],
+    params={"args": ARGS(clean=Bool, drop_water=Bool)},
+    requires=[],
+    ensures=[
+        # the PQR is written exactly once, after every check and the whole computation
+        "n_calls('print_pqr') == 1",
+        "before_all('check_files', OUTPUT_WRITERS) and before_all('check_options', OUTPUT_WRITERS)",
+        "before_all('get_molecule', OUTPUT_WRITERS) and before_all('setup_molecule', OUTPUT_WRITERS)",
+        "before_all('set_termini', OUTPUT_WRITERS) and before_all('non_trivial', OUTPUT_WRITERS)",
+        "before_all('print_pqr', ['print_pdb', 'dump_apbs'])",
+        # --clean returns before the non-trivial pipeline (no atom is added, removed or moved)
+        "iff(args.clean, n_calls('non_trivial') == 0)",
+        # waters are dropped iff asked for, and the filtered list is what the molecule is built from
+        "iff(args.drop_water, n_calls('drop_water') == 1)",
+        "implies(args.drop_water, calls_of('setup_molecule')[0].args['pdblist'] is calls_of('drop_water')[0].ret)",
+        "implies(not args.drop_water, calls_of('setup_molecule')[0].args['pdblist'] is calls_of('get_molecule')[0].ret[0])",
+        # what is printed is what the pipeline returned
+        "implies(not args.clean, calls_of('print_pqr')[0].args['pqr_lines'] is calls_of('non_trivial')[0].ret['lines'])",
+        # optional outputs only when asked for; the APBS input names the PQR just written
+        "iff(n_calls('print_pdb') == 1, args.pdb_output is not None and args.pdb_output != '')",
+        "iff(n_calls('dump_apbs') == 1, args.apbs_input is not None and args.apbs_input != '')",
+        "forall(calls_of('dump_apbs'), lambda c: c.args['output_pqr'] is args.output_pqr and c.args['output_path'] is args.apbs_input)",
+    ],
+    raises={"RuntimeError": "True", "FileNotFoundError": "True", "ValueError": "True", "IndexError": "True"},
+    exsures=[
+        # a run that fails never touches the output path
+        "forall(OUTPUT_WRITERS, lambda f: n_calls(f) == 0)",
+    ],
+    trace=DRV_TRACE,
+    name="main_driver",
+    native=False,
+    budget=20000,
+)
+
+# ---------------------------------------------------------------- option checks: unusable combinations fail loudly
+contract(
+    "pdb2pqr.main:check_options", "C12",
+    params={"args": Obj("Namespace", ph=Real, neutraln=Bool, neutralc=Bool, ff=OneOf(Const(None), Enum("parse", "PARSE", "amber")))},
+    requires=[],
+    ensures=[
+        "args.ph >= 0 and args.ph <= 14",
+        "implies(args.neutraln or args.neutralc, args.ff is not None and args.ff.lower() == 'parse')",
+    ],
+    raises={"RuntimeError": "True"},
+    name="check_options",
+    native=False,
+)
